@@ -61,7 +61,8 @@ Definition lastkey (ps : list pentry) : bytes := last (map pe_key ps) [].
 Definition firstkey (ps : list pentry) : bytes := pe_key (nth 0 ps dummy_pe).
 Definition sorted_ps (ps : list pentry) : Prop :=
   forall i j, (i < j < length ps)%nat -> bcmp (pe_key (nth i ps dummy_pe)) (pe_key (nth j ps dummy_pe)) = Lt.
-Definition fence_of (ps : list pentry) : option bytes := match ps with p :: _ => Some (pe_key p) | [] => None end.
+Definition fence_of (ps : list pentry) : option (bytes * bytes) := match ps with p :: _ => Some (pe_key p, pe_val p) | [] => None end.
+Definition first_kv (ps : list pentry) : bytes * bytes := (pe_key (nth 0 ps dummy_pe), pe_val (nth 0 ps dummy_pe)).
 Definition ent_of (p : pentry) : entry := (pe_key p, pe_val p).
 Definition all_entries (ds : list dblk) (ps : list pentry) : list entry :=
   concat (map (fun d => map ent_of (d_ps d)) ds) ++ map ent_of ps.
@@ -71,13 +72,18 @@ Fixpoint offs_ok (off : N) (ds : list dblk) : Prop :=
   | [] => True
   | d :: tl => d_off d = off /\ offs_ok (off + len (frame (d_stored d))) tl
   end.
-Fixpoint fences_ok (ds : list dblk) (f : option bytes) : Prop :=
+(* what links a finished block to the first entry of the block after it: the separator is below
+   that entry's key, and the block was closed only because that entry (with 15 bytes allowed for
+   its header) would have brought it to the configured size *)
+Definition link (bs : N) (d : dblk) (kv : bytes * bytes) : Prop :=
+  bcmp (d_sep d) (fst kv) = Lt /\ bs <= len (d_raw d) + 15 + len (fst kv) + len (snd kv).
+Fixpoint fences_ok (bs : N) (ds : list dblk) (f : option (bytes * bytes)) : Prop :=
   match ds with
   | [] => True
   | d :: tl => match tl with
-               | d' :: _ => bcmp (d_sep d) (firstkey (d_ps d')) = Lt
-               | [] => match f with Some k => bcmp (d_sep d) k = Lt | None => True end
-               end /\ fences_ok tl f
+               | d' :: _ => link bs d (first_kv (d_ps d'))
+               | [] => match f with Some kv => link bs d kv | None => True end
+               end /\ fences_ok bs tl f
   end.
 Definition idx_entry (p : pentry) (d : dblk) : Prop := pe_key p = d_sep d /\ pe_val p = varint_encode64 (d_off d).
 
@@ -115,8 +121,8 @@ Proof.
     rewrite Hd. cbn [map concat]. rewrite len_app. lia.
 Qed.
 
-Lemma fences_ok_app : forall ds f d, fences_ok ds f ->
-  (match f with Some k => k = firstkey (d_ps d) | None => ds = [] end) -> fences_ok (ds ++ [d]) None.
+Lemma fences_ok_app bs : forall ds f d, fences_ok bs ds f ->
+  (match f with Some kv => kv = first_kv (d_ps d) | None => ds = [] end) -> fences_ok bs (ds ++ [d]) None.
 Proof.
   induction ds as [|x ds IH]; intros f d Hf Hk; [cbn; split; exact I|].
   cbn [app fences_ok]. destruct Hf as [H1 H2]. destruct ds as [|y ds].
@@ -124,8 +130,8 @@ Proof.
   - split; [exact H1|]. apply (IH f d H2). destruct f; [exact Hk|discriminate].
 Qed.
 
-Lemma fences_ok_set : forall ds k, fences_ok ds None ->
-  (forall d, ds <> [] -> d = last ds dummy_d -> bcmp (d_sep d) k = Lt) -> fences_ok ds (Some k).
+Lemma fences_ok_set bs : forall ds kv, fences_ok bs ds None ->
+  (forall d, ds <> [] -> d = last ds dummy_d -> link bs d kv) -> fences_ok bs ds (Some kv).
 Proof.
   induction ds as [|x ds IH]; intros k Hf Hl; [exact I|].
   cbn [fences_ok] in *. destruct Hf as [H1 H2]. destruct ds as [|y ds].
@@ -133,7 +139,7 @@ Proof.
   - split; [exact H1|]. apply IH; [exact H2|]. intros d Hne Hd. apply Hl; [discriminate|]. rewrite Hd. reflexivity.
 Qed.
 
-Lemma fences_ok_same_head ds ps p : ps <> [] -> fences_ok ds (fence_of ps) -> fences_ok ds (fence_of (ps ++ [p])).
+Lemma fences_ok_same_head bs ds ps p : ps <> [] -> fences_ok bs ds (fence_of ps) -> fences_ok bs ds (fence_of (ps ++ [p])).
 Proof. intros H. destruct ps; [congruence|]. exact (fun x => x). Qed.
 
 Section Writer.
@@ -149,9 +155,13 @@ Local Notation compress_block := (Writer.compress_block compress_default compres
 
 Definition dblk_ok (d : dblk) : Prop :=
   d_ps d <> [] /\ sorted_ps (d_ps d) /\ block_init (d_raw d) = Some (d_ab d) /\ wfb (d_ab d) (d_ridx d) /\
-  compress_block o (d_raw d) = Ok (d_stored d) /\ bcmp (lastkey (d_ps d)) (d_sep d) <> Gt.
+  compress_block o (d_raw d) = Ok (d_stored d) /\ bcmp (lastkey (d_ps d)) (d_sep d) <> Gt /\
+  (* how the block was built, and its size *)
+  (exists b, bbinv b (d_ps d) (d_ridx d) /\ d_raw d = bb_finish b /\ bb_interval b = wo_interval o) /\
+  len (d_raw d) < 2 ^ 32 /\
+  ((2 <= length (d_ps d))%nat -> len (d_raw d) < wo_block_size o).
 
-Record tcore (w : writer) (ds : list dblk) (ps : list pentry) (ridx : list nat) (f : option bytes) : Prop := {
+Record tcore (w : writer) (ds : list dblk) (ps : list pentry) (ridx : list nat) (f : option (bytes * bytes)) : Prop := {
   tc_open : w_closed w = false;
   tc_opt : w_opt w = o;
   tc_out : wout off0 o w (map d_stored ds);
@@ -159,8 +169,9 @@ Record tcore (w : writer) (ds : list dblk) (ps : list pentry) (ridx : list nat) 
   tc_index : exists ips iridx, bbinv (w_index w) ips iridx /\ Forall2 idx_entry ips ds;
   tc_blocks : Forall dblk_ok ds;
   tc_offs : offs_ok off0 ds;
-  tc_fences : fences_ok ds f;
+  tc_fences : fences_ok (wo_block_size o) ds f;
   tc_sorted : sorted_ps ps;
+  tc_int : bb_interval (w_data w) = wo_interval o /\ bb_interval (w_index w) = wo_interval o;
 }.
 
 Lemma bb_nonempty b ps ridx : bbinv b ps ridx -> ps <> [] -> bb_empty b = false.
@@ -178,19 +189,20 @@ Proof. intros H Hab. apply Forall2_app; [exact H|constructor; [exact Hab|constru
 Lemma flush_core w ds ps ridx w' : tcore w ds ps ridx (fence_of ps) -> ps <> [] ->
   bcmp (lastkey ps) (w_last_key w) <> Gt -> len (w_last_key w) < 2 ^ 32 ->
   len (bb_finish (w_data w)) < 2 ^ 32 ->
+  ((2 <= length ps)%nat -> len (bb_finish (w_data w)) < wo_block_size o) ->
   writer_flush w = Ok w' ->
-  exists d, tcore w' (ds ++ [d]) [] [0%nat] None /\ d_ps d = ps /\ d_sep d = w_last_key w /\
+  exists d, tcore w' (ds ++ [d]) [] [0%nat] None /\ d_ps d = ps /\ d_sep d = w_last_key w /\ d_raw d = bb_finish (w_data w) /\
             w_last_key w' = w_last_key w /\ m_count_entries (w_m w') = m_count_entries (w_m w) /\
             m_bytes_keys (w_m w') = m_bytes_keys (w_m w) /\ m_bytes_values (w_m w') = m_bytes_values (w_m w).
 Proof.
-  intros [Hc Hopt Hout Hdata (ips & iridx & Hidx & Hrel) Hblocks Hoffs Hfences Hsorted] Hps Hle Hlk Hsz H.
+  intros [Hc Hopt Hout Hdata (ips & iridx & Hidx & Hrel) Hblocks Hoffs Hfences Hsorted [Hint1 Hint2]] Hps Hle Hlk Hsz Hs1 H.
   unfold Writer.writer_flush in H. rewrite Hc, (bb_nonempty _ _ _ Hdata Hps) in H.
   destruct (compress_block (w_opt w) (bb_finish (w_data w))) as [stored| | |] eqn:Ecomp; try discriminate.
   unfold write_data_block in H. cbn [w_index w_pending_offset w_m w_opt w_data w_last_key w_last_offset w_closed w_out] in H.
   destruct (bb_add (w_index w) (w_last_key w) (varint_encode64 (w_pending_offset w))) as [idx| | |] eqn:Eadd; try discriminate.
   assert (Hvl : len (varint_encode64 (w_pending_offset w)) < 2 ^ 32).
   { pose proof (varint_encode64_len (w_pending_offset w)). change (2 ^ 32) with 4294967296. lia. }
-  destruct (bb_add_inv _ _ _ _ _ _ Hidx Hlk Hvl Eadd) as (p & iridx' & Hidx' & Hpk & Hpv & _).
+  destruct (bb_add_inv _ _ _ _ _ _ Hidx Hlk Hvl Eadd) as (p & iridx' & Hidx' & Hpk & Hpv & Hint').
   inversion H; subst w'; clear H.
   set (d := mkd ps ridx (bb_finish (w_data w)) stored (w_last_key w) (w_pending_offset w)).
   exists d. cbn [w_last_key w_m m_count_entries m_bytes_keys m_bytes_values]. splits; try reflexivity.
@@ -211,9 +223,11 @@ Proof.
     + unfold d_ab. cbn [d_ps d_raw d_ridx d]. apply block_init_finish; assumption.
     + unfold d_ab. cbn [d_ps d_raw d_ridx d]. eapply finish_wfb; eassumption.
     + rewrite <- Hopt. exact Ecomp.
+    + exists (w_data w). splits; [exact Hdata|reflexivity|exact Hint1].
   - apply offs_ok_app; [exact Hoffs|]. cbn [d_off d]. exact (wo_pending _ _ _ _ Hout).
   - eapply fences_ok_app; [exact Hfences|]. destruct ps as [|p0 ps0]; [congruence|]. reflexivity.
   - intros i j Hij. cbn in Hij. lia.
+  - split; [exact Hint1|]. rewrite Hint'. exact Hint2.
 Qed.
 
 (* ---- sizes: no block reaches 4 GiB --------------------------------------------------------- *)
@@ -249,6 +263,26 @@ Proof.
   rewrite E. split; lia.
 Qed.
 
+Lemma entry_encode_len0 k v : len (entry_encode 0 k v) <= 11 + len k + len v.
+Proof.
+  unfold entry_encode. rewrite !len_app. change (len (varint_encode32 0)) with 1.
+  pose proof (varint_encode32_len (len k - 0)). pose proof (varint_encode32_len (len v)).
+  assert (len (drop 0 k) <= len k) by (unfold drop, len; rewrite skipn_length; lia). lia.
+Qed.
+(* the size of the block after an add, against the estimate made before it *)
+Lemma bb_add_finish_bound b k v b' : bb_add b k v = Ok b' -> len (bb_buf b') <= UINT32_MAX ->
+  len (bb_finish b') <= bb_estimate b + 15 + len k + len v.
+Proof.
+  intros H Hsmall'. destruct (finish_len_small b' Hsmall') as [-> _].
+  unfold bb_add in H. destruct (negb (bb_counter b <=? bb_interval b) || bb_finished b); [discriminate|].
+  inversion H; subst b'; clear H. cbn [bb_buf] in *. unfold nrestarts. cbn [bb_restarts]. rewrite len_app in *.
+  assert (Hsmall : len (bb_buf b) <= UINT32_MAX) by lia.
+  destruct (finish_len_small b Hsmall) as [_ ->]. unfold nrestarts.
+  destruct (bb_counter b <? bb_interval b).
+  - pose proof (entry_encode_len (lcp (bb_last_key b) k) k v). lia.
+  - pose proof (entry_encode_len0 k v). rewrite app_length. cbn [length]. lia.
+Qed.
+
 (* ---- the invariant between API calls ------------------------------------------------------ *)
 Record tinv (w : writer) (ds : list dblk) (ps : list pentry) (ridx : list nat) : Prop := {
   ti_core : tcore w ds ps ridx (fence_of ps);
@@ -257,6 +291,7 @@ Record tinv (w : writer) (ds : list dblk) (ps : list pentry) (ridx : list nat) :
   ti_lkwf : wf_bytes (w_last_key w);
   ti_lklen : len (w_last_key w) < 2 ^ 32;
   ti_size : len (bb_finish (w_data w)) < 2 ^ 32;
+  ti_s1 : (2 <= length ps)%nat -> len (bb_finish (w_data w)) < wo_block_size o;
 }.
 
 Lemma tinv_init : 1 <= wo_interval o -> tinv (writer_init o off0) [] [] [0%nat].
@@ -272,11 +307,13 @@ Proof.
     + exact I.
     + exact I.
     + intros i j Hij. cbn in Hij. lia.
+    + split; reflexivity.
   - intros H. congruence.
   - intros _. splits; reflexivity.
   - constructor.
   - cbn. change (2 ^ 32) with 4294967296. lia.
   - cbn. change (2 ^ 32) with 4294967296. lia.
+  - intros H. cbn in H. lia.
 Qed.
 
 Lemma all_entries_add ds ps p k v : pe_key p = k -> pe_val p = v -> all_entries ds (ps ++ [p]) = all_entries ds ps ++ [(k, v)].
@@ -287,8 +324,9 @@ Proof. intros <- <-. unfold all_entries. rewrite map_app, concat_app. cbn [map c
 
 (* the part of a step that is common to "no cut" and "cut": add to the data block *)
 Lemma add_to_block w1 ds ps ridx k v d (w' : writer) :
-  tcore w1 ds ps ridx (fence_of ps) -> (ps = [] -> fences_ok ds (Some k)) ->
+  tcore w1 ds ps ridx (fence_of ps) -> (ps = [] -> fences_ok (wo_block_size o) ds (Some (k, v))) ->
   (ps <> [] -> bcmp (lastkey ps) k = Lt) ->
+  (ps <> [] -> len (bb_finish d) < wo_block_size o) ->
   wf_bytes k -> len k < 2 ^ 32 -> len v < 2 ^ 32 ->
   len (bb_buf (w_data w1)) + 15 + len k + len v + 4 * (nrestarts (w_data w1) + 1) + 4 < 2 ^ 32 ->
   bb_add (w_data w1) k v = Ok d ->
@@ -301,9 +339,9 @@ Lemma add_to_block w1 ds ps ridx k v d (w' : writer) :
   m_compression_algorithm (w_m w') = m_compression_algorithm (w_m w1) ->
   exists p ridx', tinv w' ds (ps ++ [p]) ridx' /\ pe_key p = k /\ pe_val p = v.
 Proof.
-  intros [Hc Hopt Hout Hdata Hindex Hblocks Hoffs Hfences Hsorted] Hfresh Hlt Hwf Hk Hv Hsz Hadd
+  intros [Hc Hopt Hout Hdata Hindex Hblocks Hoffs Hfences Hsorted [Hint1 Hint2]] Hfresh Hlt Hbs Hwf Hk Hv Hsz Hadd
          E1 E2 E3 E4 E5 E6 E7 E8 E9 E10 E11 E12.
-  destruct (bb_add_inv _ _ _ _ _ _ Hdata Hk Hv Hadd) as (p & ridx' & Hdata' & Hpk & Hpv & _).
+  destruct (bb_add_inv _ _ _ _ _ _ Hdata Hk Hv Hadd) as (p & ridx' & Hdata' & Hpk & Hpv & Hint').
   destruct (bb_add_sizes _ _ _ _ Hadd) as [Hs1 Hs2].
   exists p, ridx'. splits; try assumption. constructor.
   - constructor.
@@ -314,14 +352,16 @@ Proof.
     + rewrite E4. exact Hindex.
     + exact Hblocks.
     + exact Hoffs.
-    + destruct ps as [|p0 ps0]; [cbn [app fence_of]; rewrite Hpk; apply Hfresh; reflexivity|exact Hfences].
+    + destruct ps as [|p0 ps0]; [cbn [app fence_of]; rewrite Hpk, Hpv; apply Hfresh; reflexivity|exact Hfences].
     + apply sorted_app; [exact Hsorted|]. rewrite Hpk. exact Hlt.
+    + rewrite E3, E4, Hint'. split; assumption.
   - intros _. split; [|lia]. rewrite E7. unfold lastkey. rewrite map_app. cbn [map]. rewrite last_app_one. symmetry. exact Hpk.
   - intros E. destruct ps; discriminate.
   - rewrite E7. exact Hwf.
   - rewrite E7. exact Hk.
   - rewrite E3. change (2 ^ 32) with 4294967296 in *.
     destruct (finish_len_small d ltac:(unfold UINT32_MAX; lia)) as [-> _]. lia.
+  - intros H2. rewrite E3. apply Hbs. rewrite app_length in H2. cbn [length] in H2. destruct ps; [cbn in H2; lia|discriminate].
 Qed.
 
 Lemma tcore_fields w w0 ds ps ridx f : tcore w ds ps ridx f ->
@@ -333,7 +373,7 @@ Lemma tcore_fields w w0 ds ps ridx f : tcore w ds ps ridx f ->
   m_compression_algorithm (w_m w0) = m_compression_algorithm (w_m w) ->
   tcore w0 ds ps ridx f.
 Proof.
-  intros [Hc Hopt Hout Hdata Hindex Hblocks Hoffs Hfences Hsorted] E1 E2 E3 E4 E5 E6 E7 E8 E9 E10.
+  intros [Hc Hopt Hout Hdata Hindex Hblocks Hoffs Hfences Hsorted Hint] E1 E2 E3 E4 E5 E6 E7 E8 E9 E10.
   constructor; try assumption; try congruence.
   - eapply wout_same; [exact Hout| | | | | |]; assumption.
   - rewrite E4. exact Hindex.
@@ -347,8 +387,8 @@ Theorem add_inv w ds ps ridx k v w' r : tinv w ds ps ridx ->
     all_entries ds' ps' = all_entries ds ps ++ (if r then [(k, v)] else []) /\
     (r = true -> w_last_key w' = k).
 Proof.
-  intros Hinv Hwf Hk Hv Hbig H. pose proof Hinv as [Hcore Hlast Hfresh Hlkwf Hlklen Hsize].
-  pose proof Hcore as [Hc Hopt Hout Hdata Hindex Hblocks Hoffs Hfences Hsorted].
+  intros Hinv Hwf Hk Hv Hbig H. pose proof Hinv as [Hcore Hlast Hfresh Hlkwf Hlklen Hsize Hs1inv].
+  pose proof Hcore as [Hc Hopt Hout Hdata Hindex Hblocks Hoffs Hfences Hsorted Hint].
   unfold Writer.writer_add in H. rewrite Hc in H. unfold WRITER_GATE_IS_STRICT, WRITER_CUT_IS_GE, WRITER_ENTRY_OVERHEAD in H. cbn [negb] in H.
   match type of H with (if ?c then _ else _) = _ => destruct c eqn:Egate end.
   { inversion H; subst w' r. exists ds, ps, ridx. split; [exact Hinv|]. split; [rewrite app_nil_r; reflexivity|discriminate]. }
@@ -372,7 +412,7 @@ Proof.
       cbn [w_m w_data w_opt w_index w_last_offset w_pending_offset w_closed w_out] in H.
       destruct (bb_add (w_data w) k v) as [d| | |] eqn:Eadd; try discriminate. inversion H; subst w' r; clear H.
       match goal with |- context [tinv ?W _ _ _] =>
-        destruct (add_to_block w [] [] [0%nat] k v d W Hcore ltac:(intros; exact I) ltac:(congruence) Hwf Hk Hv) as (p & ridx' & Hinv' & Hpk & Hpv) end;
+        destruct (add_to_block w [] [] [0%nat] k v d W Hcore ltac:(intros; exact I) ltac:(congruence) ltac:(congruence) Hwf Hk Hv) as (p & ridx' & Hinv' & Hpk & Hpv) end;
         try reflexivity; try exact Eadd; try (cbn [w_closed w_opt]; congruence).
       { change (2 ^ 32) with 4294967296. unfold nrestarts. rewrite (bi_buf _ _ _ Hdata), (bi_restarts _ _ _ Hdata).
         cbn [map length]. change (len (enc_all [])) with 0. lia. }
@@ -386,10 +426,12 @@ Proof.
       match type of H with context [writer_flush ?W0] => set (w0 := W0) in H end.
       destruct (writer_flush w0) as [w1| | |] eqn:Eflush; try discriminate.
       assert (Hcore0 : tcore w0 ds ps ridx (fence_of ps)) by (eapply tcore_fields; [exact Hcore| | | | | | | | | |]; first [reflexivity|unfold w0; cbn [w_closed w_opt]; congruence]).
-      destruct (flush_core w0 ds ps ridx w1 Hcore0 Hne) as (d & Hcore1 & Hdps & Hdsep & Hlk1 & Hc1 & Hk1 & Hv1); try exact Eflush.
+      destruct (flush_core w0 ds ps ridx w1 Hcore0 Hne) as (d & Hcore1 & Hdps & Hdsep & Hdraw & Hlk1 & Hc1 & Hk1 & Hv1); try exact Eflush.
       { exact Hs1. }
       { cbn [w0 w_last_key]. fold lk. lia. }
       { cbn [w0 w_data]. change (2 ^ 32) with 4294967296. exact Hsize. }
+      { cbn [w0 w_data]. exact Hs1inv. }
+      cbn [w0 w_data] in Hdraw.
       cbn [w0 w_last_key] in Hdsep, Hlk1. fold lk in Hdsep, Hlk1.
       destruct (bb_add (w_data w1) k v) as [dd| | |] eqn:Eadd; try discriminate. inversion H; subst w' r; clear H.
       pose proof (tc_data _ _ _ _ _ Hcore1) as Hd1.
@@ -397,7 +439,8 @@ Proof.
         destruct (add_to_block w1 (ds ++ [d]) [] [0%nat] k v dd W Hcore1) as (p & ridx' & Hinv' & Hpk & Hpv) end;
         try reflexivity; try exact Eadd; try assumption; try (cbn [w_closed w_opt]; congruence).
       { intros _. apply fences_ok_set; [exact (tc_fences _ _ _ _ _ Hcore1)|].
-        intros d' _ Hd'. rewrite last_app_one in Hd'. subst d'. rewrite Hdsep. exact Hs2. }
+        intros d' _ Hd'. rewrite last_app_one in Hd'. subst d'. split; cbn [fst snd]; [rewrite Hdsep; exact Hs2|].
+        rewrite Hdraw, Hfl, <- Hest. lia. }
       { change (2 ^ 32) with 4294967296. rewrite (bi_buf _ _ _ Hd1). unfold nrestarts. rewrite (bi_restarts _ _ _ Hd1).
         cbn [map length]. change (len (enc_all [])) with 0. lia. }
       exists (ds ++ [d]), ([] ++ [p]), ridx'. split; [exact Hinv'|]. split; [cbn [app]; rewrite <- Hdps; apply all_entries_cut; assumption|reflexivity].
@@ -407,6 +450,8 @@ Proof.
       destruct (add_to_block w ds ps ridx k v d W Hcore) as (p & ridx' & Hinv' & Hpk & Hpv) end;
       try reflexivity; try exact Eadd; try assumption; try (cbn [w_closed w_opt]; congruence).
     { intros E. destruct (Hfresh E) as (-> & _ & _). exact I. }
+    { intros _. pose proof (bb_add_finish_bound _ _ _ _ Eadd) as Hb. destruct (bb_add_sizes _ _ _ _ Eadd) as [Hb1 _].
+      rewrite Hest in Ecut. specialize (Hb ltac:(unfold UINT32_MAX; lia)). rewrite Hest in Hb. lia. }
     { change (2 ^ 32) with 4294967296. rewrite Hest in Ecut. lia. }
     exists ds, (ps ++ [p]), ridx'. split; [exact Hinv'|]. split; [apply all_entries_add; assumption|reflexivity].
 Qed.
@@ -473,14 +518,14 @@ Qed.
 Theorem finish_inv w ds ps ridx w' : tinv w ds ps ridx -> writer_finish w = Ok w' ->
   exists ds' ib ips iridx,
     writer_bytes w' = concat (map frame (map d_stored ds')) ++ frame (bb_finish ib) ++ metadata_write (w_m w') /\
-    Forall dblk_ok ds' /\ offs_ok off0 ds' /\ fences_ok ds' None /\
-    bbinv ib ips iridx /\ Forall2 idx_entry ips ds' /\
+    Forall dblk_ok ds' /\ offs_ok off0 ds' /\ fences_ok (wo_block_size o) ds' None /\
+    bbinv ib ips iridx /\ bb_interval ib = wo_interval o /\ Forall2 idx_entry ips ds' /\
     m_index_block_offset (w_m w') = off0 + len (concat (map frame (map d_stored ds'))) /\
     m_compression_algorithm (w_m w') = wo_comp o /\
     m_bytes_index_block (w_m w') = len (frame (bb_finish ib)) /\
     all_entries ds' [] = all_entries ds ps.
 Proof.
-  intros [Hcore Hlast Hfresh Hlkwf Hlklen Hsize] H. unfold Writer.writer_finish in H.
+  intros [Hcore Hlast Hfresh Hlkwf Hlklen Hsize Hs1inv] H. unfold Writer.writer_finish in H.
   destruct (writer_flush w) as [w1| | |] eqn:Ef; try discriminate.
   assert (Hw1 : exists ds', tcore w1 ds' [] [0%nat] None /\ all_entries ds' [] = all_entries ds ps).
   { destruct ps as [|p0 ps0] eqn:Eps.
@@ -491,12 +536,12 @@ Proof.
       destruct (flush_core w ds ps ridx w1 Hcore Hne) as (d & Hc1 & Hdps & _); try assumption.
       { rewrite Hl, bcmp_refl. discriminate. }
       exists (ds ++ [d]). split; [exact Hc1|]. unfold all_entries. rewrite map_app, concat_app. cbn [map concat]. rewrite Hdps, !app_nil_r. reflexivity. }
-  destruct Hw1 as (ds' & [Hc Hopt Hout Hdata (ips & iridx & Hidx & Hrel) Hblocks Hoffs Hfences Hsorted] & Hall).
+  destruct Hw1 as (ds' & [Hc Hopt Hout Hdata (ips & iridx & Hidx & Hrel) Hblocks Hoffs Hfences Hsorted Hint] & Hall).
   inversion H; subst w'; clear H.
   exists ds', (w_index w1), ips, iridx.
   destruct Hout as [Hb Hcnt Hd Hp Hbs Halg].
   cbn [w_m m_index_block_offset m_compression_algorithm m_bytes_index_block].
-  splits; try assumption.
+  splits; try assumption; try exact (proj2 Hint).
   - unfold writer_bytes, writer_chunks in *. cbn [w_out]. cbn [rev]. rewrite !concat_app. cbn [concat].
     rewrite !app_nil_r, <- !app_assoc, Hb. unfold frame. rewrite <- !app_assoc. reflexivity.
   - rewrite frame_len. reflexivity.
@@ -577,14 +622,17 @@ Proof.
   destruct (j - i)%nat as [|n] eqn:En; [lia|]. cbn [firstn map concat]. rewrite len_app. pose proof (frame_pos (d_stored x)). lia.
 Qed.
 
-Lemma fences_nth : forall ds f i, fences_ok ds f -> (S i < length ds)%nat ->
-  bcmp (d_sep (nth i ds dummy_d)) (firstkey (d_ps (nth (S i) ds dummy_d))) = Lt.
+Lemma fences_nth bs : forall ds f i, fences_ok bs ds f -> (S i < length ds)%nat ->
+  link bs (nth i ds dummy_d) (first_kv (d_ps (nth (S i) ds dummy_d))).
 Proof.
   induction ds as [|d ds IH]; intros f i Hf Hi; [cbn in Hi; lia|]. destruct Hf as [H1 H2]. destruct i as [|i].
   - destruct ds as [|d' ds]; [cbn in Hi; lia|]. exact H1.
   - change (nth (S i) (d :: ds) dummy_d) with (nth i ds dummy_d). change (nth (S (S i)) (d :: ds) dummy_d) with (nth (S i) ds dummy_d).
     apply (IH f). exact H2. cbn in Hi. lia.
 Qed.
+Lemma fences_nth_lt bs ds f i : fences_ok bs ds f -> (S i < length ds)%nat ->
+  bcmp (d_sep (nth i ds dummy_d)) (firstkey (d_ps (nth (S i) ds dummy_d))) = Lt.
+Proof. intros H Hi. exact (proj1 (fences_nth bs ds f i H Hi)). Qed.
 
 Lemma Forall2_nth {A B} (R : A -> B -> Prop) : forall l1 l2 da db i, Forall2 R l1 l2 -> (i < length l1)%nat -> R (nth i l1 da) (nth i l2 db).
 Proof.
@@ -604,13 +652,13 @@ Hypothesis dok_sorted : forall d, dok d -> sorted_ps (d_ps d).
 Hypothesis dok_sep : forall d, dok d -> bcmp (lastkey (d_ps d)) (d_sep d) <> Gt.
 
 (* separators increase strictly *)
-Lemma seps_sorted ds : Forall dok ds -> fences_ok ds None ->
+Lemma seps_sorted bs ds : Forall dok ds -> fences_ok bs ds None ->
   forall i j, (i < j < length ds)%nat -> bcmp (d_sep (nth i ds dummy_d)) (d_sep (nth j ds dummy_d)) = Lt.
 Proof.
   intros Hall Hf i j [Hij Hj]. rewrite Forall_forall in Hall.
   assert (Hstep : forall a, (S a < length ds)%nat -> bcmp (d_sep (nth a ds dummy_d)) (d_sep (nth (S a) ds dummy_d)) = Lt).
   { intros a Ha. pose proof (Hall _ (nth_In ds dummy_d Ha)) as Hd.
-    eapply bcmp_lt_le_trans; [apply (fences_nth ds None a Hf Ha)|].
+    eapply bcmp_lt_le_trans; [apply (fences_nth_lt bs ds None a Hf Ha)|].
     pose proof (firstkey_le_last _ (dok_ne _ Hd) (dok_sorted _ Hd)) as H1. pose proof (dok_sep _ Hd) as H2.
     destruct (bcmp (firstkey (d_ps (nth (S a) ds dummy_d))) (lastkey (d_ps (nth (S a) ds dummy_d)))) eqn:E1; [| |congruence].
     - apply bcmp_eq in E1. rewrite E1. exact H2.
@@ -687,7 +735,7 @@ Proof.
   inversion Hsess; subst wf rs0; clear Hsess.
   pose proof (tinv_init compress_default compress_level o (len prefix) Hint) as Hinv0.
   destruct (adds_inv _ _ _ _ _ _ _ _ _ _ _ Hinv0 Hfit Eadds) as (ds1 & ps1 & ridx1 & Hinv1 & Hent1).
-  destruct (finish_inv _ _ _ _ _ _ _ _ _ Hinv1 Efin) as (ds & ib & ips & iridx & Hbytes & Hblocks & Hoffs & Hfences & Hib & Hrel & Hibo & Halg & Hibytes & Hent).
+  destruct (finish_inv _ _ _ _ _ _ _ _ _ Hinv1 Efin) as (ds & ib & ips & iridx & Hbytes & Hblocks & Hoffs & Hfences & Hib & _ & Hrel & Hibo & Halg & Hibytes & Hent).
   unfold all_entries in Hent1 at 2. cbn [map concat app] in Hent1. rewrite Hent1 in Hent. clear Hent1.
   set (idx := bb_finish ib) in *. set (m := w_m w') in *.
   fold (frames_of ds) in Hbytes, Hibo.
@@ -721,10 +769,10 @@ Proof.
     assert (Hips_sorted : sorted_ps ips).
     { intros i j Hij. destruct (Forall2_nth _ _ _ dummy_pe dummy_d i Hrel ltac:(lia)) as [-> _].
       destruct (Forall2_nth _ _ _ dummy_pe dummy_d j Hrel ltac:(lia)) as [-> _].
-      apply (seps_sorted (dblk_ok compress_default compress_level o)); try assumption; try lia.
+      apply (seps_sorted (dblk_ok compress_default compress_level o)) with (bs := wo_block_size o); try assumption; try lia.
       - intros d (H & _). exact H.
       - intros d (_ & H & _). exact H.
-      - intros d (_ & _ & _ & _ & _ & H). exact H. }
+      - intros d (_ & _ & _ & _ & _ & H & _). exact H. }
     set (iab := mkab ips (map (offset_of ips) iridx) (len idx) false).
     exists iab, iridx, ds. split; [|rewrite entries_of_blocks; exact Hent].
     constructor.
@@ -732,7 +780,7 @@ Proof.
     + apply (finish_wfb ib); assumption.
     + unfold nentries. cbn [iab ab_entries]. exact Hlenips.
     + (* loading block i *)
-      intros i Hi. destruct (Hdok i Hi) as (Hne & Hsorted & Hinit & Hwfb & Hcomp & Hsep).
+      intros i Hi. destruct (Hdok i Hi) as (Hne & Hsorted & Hinit & Hwfb & Hcomp & Hsep & _).
       destruct (Forall2_nth _ _ _ dummy_pe dummy_d i Hrel ltac:(lia)) as [_ Hval].
       assert (Hoff : d_off (nth i ds dummy_d) = len (prefix ++ frames_of (firstn i ds))).
       { rewrite (offs_nth ds (len prefix) i Hoffs Hi), len_app. reflexivity. }
@@ -757,11 +805,11 @@ Proof.
       destruct (Nat.lt_trichotomy i j) as [Hlt|[->|Hgt]]; [|reflexivity|].
       * pose proof (offs_lt ds _ i j Hoffs ltac:(lia)). lia.
       * pose proof (offs_lt ds _ j i Hoffs ltac:(lia)). lia.
-    + intros i Hi. destruct (Hdok i Hi) as (Hne & _ & _ & _ & _ & Hsep).
+    + intros i Hi. destruct (Hdok i Hi) as (Hne & _ & _ & _ & _ & Hsep & _).
       destruct (Forall2_nth _ _ _ dummy_pe dummy_d i Hrel ltac:(lia)) as [Hkey _].
       unfold key_at, entry_at, Bof, d_ab, nentries. cbn [iab ab_entries]. rewrite Hkey, <- lastkey_nth by exact Hne. exact Hsep.
     + intros i Hi. destruct (Forall2_nth _ _ _ dummy_pe dummy_d i Hrel ltac:(lia)) as [Hkey _].
-      unfold key_at, entry_at, Bof, d_ab. cbn [iab ab_entries]. rewrite Hkey. apply (fences_nth ds None i Hfences Hi).
+      unfold key_at, entry_at, Bof, d_ab. cbn [iab ab_entries]. rewrite Hkey. apply (fences_nth_lt _ ds None i Hfences Hi).
 Qed.
 End RoundTrip.
 
@@ -805,3 +853,42 @@ Proof.
   destruct es; [exact I|]. left. reflexivity.
 Qed.
 End RoundTrip2.
+
+(* ---- the structure of the written file (C09) --------------------------------------------------- *)
+(* the bytes of a finished block below 4 GiB: entries, 32-bit restart offsets, restart count *)
+Lemma bb_finish_bytes b ps ridx : bbinv b ps ridx -> len (bb_finish b) < 2 ^ 32 ->
+  bb_finish b = enc_all ps ++ concat (map fixed_encode32 (map (offset_of ps) ridx)) ++ fixed_encode32 (N.of_nat (length ridx)).
+Proof.
+  intros Hb Hsz. unfold bb_finish in *.
+  assert (Hsmall : UINT32_MAX <? len (bb_buf b) = false).
+  { rewrite len_app in Hsz. unfold UINT32_MAX. change (2 ^ 32) with 4294967296 in Hsz. lia. }
+  rewrite Hsmall. unfold nrestarts. rewrite (bi_buf _ _ _ Hb), (bi_restarts _ _ _ Hb), map_length. reflexivity.
+Qed.
+
+Section Structure.
+Variable compress_default : N -> bytes -> res bytes.
+Variable compress_level : N -> Z -> bytes -> res bytes.
+
+Theorem written_structure o off0 ops w' rs :
+  1 <= wo_interval o -> Forall (entry_fits o) ops ->
+  writer_session compress_default compress_level o off0 ops = Ok (w', rs) ->
+  exists ds ib ips iridx,
+    writer_bytes w' = frames_of ds ++ frame (bb_finish ib) ++ metadata_write (w_m w') /\
+    Forall (dblk_ok compress_default compress_level o) ds /\ offs_ok off0 ds /\
+    fences_ok (wo_block_size o) ds None /\
+    bbinv ib ips iridx /\ bb_interval ib = wo_interval o /\ Forall2 idx_entry ips ds /\
+    m_index_block_offset (w_m w') = off0 + len (frames_of ds) /\
+    m_bytes_index_block (w_m w') = len (frame (bb_finish ib)) /\
+    all_entries ds [] = kept ops rs.
+Proof.
+  intros Hint Hfit Hsess. unfold writer_session in Hsess.
+  destruct (writer_adds compress_default compress_level (writer_init o off0) ops) as [[w rs0]| | |] eqn:Eadds; try discriminate.
+  destruct (writer_finish compress_default compress_level w) as [wf| | |] eqn:Efin; try discriminate.
+  inversion Hsess; subst wf rs0; clear Hsess.
+  pose proof (tinv_init compress_default compress_level o off0 Hint) as Hinv0.
+  destruct (adds_inv _ _ _ _ _ _ _ _ _ _ _ Hinv0 Hfit Eadds) as (ds1 & ps1 & ridx1 & Hinv1 & Hent1).
+  destruct (finish_inv _ _ _ _ _ _ _ _ _ Hinv1 Efin) as (ds & ib & ips & iridx & Hbytes & Hblocks & Hoffs & Hfences & Hib & Hibi & Hrel & Hibo & _ & Hibytes & Hent).
+  unfold all_entries in Hent1 at 2. cbn [map concat app] in Hent1. rewrite Hent1 in Hent.
+  exists ds, ib, ips, iridx. splits; assumption.
+Qed.
+End Structure.
